@@ -21,6 +21,8 @@ import (
 	"github.com/influxdata/influxdb/tsdb"
 	"github.com/influxdata/influxdb/tsdb/index/tsi1"
 	"github.com/influxdata/influxql"
+	"go.uber.org/zap"
+	"go.uber.org/zap/zaptest/observer"
 	"pgregory.net/rapid"
 )
 
@@ -131,10 +133,30 @@ func vOpenStoreAt(root, idx string) (*tsdb.Store, error) {
 	s.EngineOptions.CompactionDisabled = true
 	// small tsi1 log files so that index compactions happen in histories of this size
 	s.EngineOptions.Config.MaxIndexLogFileSize = 2048
+	core, logs := observer.New(zap.InfoLevel)
+	s.WithLogger(zap.New(core))
+	vLastOpenLogs = logs
 	if err := s.Open(); err != nil {
 		return nil, err
 	}
 	return s, nil
+}
+
+// vLastOpenLogs holds the log entries of the most recent store (Store.Open only logs, and
+// skips, a shard that fails to open).
+var vLastOpenLogs *observer.ObservedLogs
+
+func vOpenProblems() string {
+	if vLastOpenLogs == nil {
+		return ""
+	}
+	var sb strings.Builder
+	for _, e := range vLastOpenLogs.All() {
+		if e.Level >= zap.WarnLevel || strings.Contains(strings.ToLower(e.Message), "fail") {
+			fmt.Fprintf(&sb, "[%s %s %v] ", e.Level, e.Message, e.ContextMap())
+		}
+	}
+	return sb.String()
 }
 
 func vNewBed(root, idx string, nshards int) (*vBed, error) {
